@@ -266,11 +266,18 @@ func Args(ci ssa.CallInstruction) []ssa.Value {
 	if c.IsInvoke() {
 		return c.Args
 	}
+	if f := c.StaticCallee(); f != nil && SigGuard != nil {
+		SigGuard(f) // arguments are about to be read by position
+	}
 	if f := c.StaticCallee(); f != nil && f.Signature.Recv() != nil && len(c.Args) > 0 {
 		return c.Args[1:]
 	}
 	return c.Args
 }
+
+// SigGuard, when set, is told about every function whose call-site arguments are read by position; it panics
+// (unresolved anchor) if that function's parameter list is not the confirmed one.
+var SigGuard func(*ssa.Function)
 
 // Receiver returns the receiver value of a method call (invoke or static), or nil.
 func Receiver(ci ssa.CallInstruction) ssa.Value {
